@@ -128,6 +128,8 @@ def main():
                 key = "%s|%s|%s" % (kind, why, "unknown-name:" + name if name not in table else ("m%d" % mode))
                 chk.violation(key, "%s: generator %s, rules say %s (%s) %s" % (cell, "accepts" if accepted else "rejects", "accept" if acc else "reject", why, errtxt[:120]),
                               {"cell": cell, "name": name, "level": level, "mode": mode, "window": w, "error": errtxt})
+            if "HISTORY-DEPENDENT-VERDICT" in errtxt:
+                chk.violation("verdict-depends-on-history|m%d" % mode, "%s: %s" % (cell, errtxt[:200]), {"cell": cell, "detail": errtxt})
             if "draw cap" in errtxt:
                 chk.violation("initialisation-does-not-terminate|m%d" % mode, "%s: the request was not answered: initialize() consumed more than 2e6 deviates (%s)" % (cell, errtxt[:80]), {"cell": cell})
             if "THROWS-BUT-INITIALIZED" in errtxt:
@@ -145,7 +147,7 @@ def main():
         "rule": "grid = (51 isotopes + 4 unknown/mis-cased names) x levels -1..17 x modes 0..25 x {no window, valid, inverted, lower-bound-only, upper-bound-only, above the kinematic "
                 "range}; each cell is configured through decay0_generator and initialised; verdict compared with an executable model of the stated rules "
                 "(tables parsed from the reference source; gA datasets synthesised); accepted cells shoot 20 events through the C04 monitor, rejected "
-                "cells must not shoot; distinct = distinct (mode, window kind, model verdict, generator verdict) classes observed",
+                "cells must not shoot; every request is also put to one long-lived generator object per process (reset between requests) and must get the same verdict; distinct = distinct (mode, window kind, model verdict, generator verdict) classes observed",
         "samples": samples or [{"note": "none"}],
         "cells": len(cells),
         "accepted": n_acc,
